@@ -138,8 +138,8 @@ static void case_read_number(const char *f, int as_mtime)
 	if (read_number((const char *)b, (int)len, &v)) {
 		puts("ERR");
 	} else if (as_mtime) {
-		/* decode_header's reading of the mtime field, written without the
-		   signed negation (undefined for -2^63) */
+		/* decode_header's reading of the mtime field (two's complement;
+		   read_header itself is exercised by the R cases) */
 		int64_t t;
 		memcpy(&t, &v, sizeof(t));
 		printf("OK %" PRId64 "\n", t);
